@@ -213,7 +213,7 @@ func main() {
 		depth = 6
 	}
 	if tier == "quick" {
-		r.Deadline = time.Now().Add(120 * time.Second)
+		r.Deadline = time.Now().Add(300 * time.Second)
 	} else {
 		r.Deadline = time.Now().Add(25 * time.Minute)
 	}
